@@ -190,11 +190,28 @@ def _ra_case(arg):
         a_r, ndim, axis, is_max = case["a"], case["ndim"], case["axis"], case["isMax"]
         flat = [v for row in a_r for v in row]
         for vname, lo, hi in [("plain", False, False), ("inf", True, True), ("near-ties", False, False),
-                              ("huge", False, False)]:
+                              ("huge", False, False), ("uint8", False, False), ("int64-min", False, False),
+                              ("bool", False, False)]:
             if vname != "plain" and not any(v != ab.NAN and v != 0 for v in flat):
                 continue
-            arr = ab.concretise_ranks(flat, lo_inf=lo, hi_inf=hi, near=(vname == "near-ties"),
-                                      scale=1e300 if vname == "huge" else None).reshape(len(a_r), len(a_r[0]))
+            if vname in ("uint8", "int64-min", "bool"):
+                # integer-like dtypes (no NaN): the same order on unsigned / extreme signed / Boolean values,
+                # for which "the minimum is the maximum of the negation" does not hold
+                if any(v == ab.NAN for v in flat):
+                    continue
+                dv = sorted(set(flat))
+                if vname == "bool":
+                    if len(dv) > 2:
+                        continue
+                    arr = np.array([v == dv[-1] and len(dv) > 1 for v in flat], dtype=bool)
+                elif vname == "uint8":
+                    arr = np.array([dv.index(v) * 7 for v in flat], dtype=np.uint8)
+                else:
+                    arr = np.array([np.iinfo(np.int64).min if v == dv[0] else dv.index(v) for v in flat], dtype=np.int64)
+                arr = arr.reshape(len(a_r), len(a_r[0]))
+            else:
+                arr = ab.concretise_ranks(flat, lo_inf=lo, hi_inf=hi, near=(vname == "near-ties"),
+                                          scale=1e300 if vname == "huge" else None).reshape(len(a_r), len(a_r[0]))
             if ndim == 1:
                 arr = arr[0]
             fn = rand_argmax if is_max else rand_argmin
@@ -203,10 +220,15 @@ def _ra_case(arg):
             nonnan = [v for v in flat if v != ab.NAN]
             seeds_here = max(8, n_seeds * _n_allowed(a_r, ndim, axis, is_max))
             for s in list(range(seeds_here)) + [0, 1]:
-                with warnings.catch_warnings():
-                    warnings.simplefilter("ignore")
-                    with np.errstate(all="ignore"):
-                        r = fn(arr.copy() if s % 2 else arr.tolist(), random_state=seed0 + s, **kw)
+                try:
+                    with warnings.catch_warnings():
+                        warnings.simplefilter("ignore")
+                        with np.errstate(all="ignore"):
+                            r = fn(arr.copy() if s % 2 else arr.tolist(), random_state=seed0 + s, **kw)
+                except Exception as ex:      # the code under test raised: an event no action matches
+                    events.append({"ev": "Raised", "exc": "%s: %s" % (type(ex).__name__, str(ex)[:160])})
+                    n_eval += 1
+                    break
                 n_eval += 1
                 r = np.asarray(r)
                 if r.ndim != 1 or r.dtype.kind not in "iu":
@@ -223,7 +245,7 @@ def _ra_case(arg):
                 # seeds used (<= 4 ties per slice product)
                 if case.get("fair", True):
                     events.append({"ev": "AllReached"})
-            ranks = ab.signed_ranks(arr)[0]
+            ranks = ab.signed_ranks(np.asarray(arr, dtype=float))[0]
             a_abs = [ranks[i * len(a_r[0]):(i + 1) * len(a_r[0])] for i in range(len(a_r))]
             traces.append({"id": "%s/%s/axis=%s/%s" % (fn.__name__, a_r, axis, vname), "a": a_abs,
                            "ndim": ndim, "axis": axis, "isMax": is_max, "events": events,
